@@ -147,14 +147,18 @@ def commit (kind : K → Kind) (s : St K V) (tx : List (Op K V)) : St K V × Com
               queue := s.queue ++ [{ id := id, ops := tx }],
               hist := s.hist ++ [tx] }, .ok)
 
-/-- `IndexedChangeSet::clean_overlay` for one operation. -/
+/-- `IndexedChangeSet::clean_overlay` for one operation: the entry of the operation's key is
+    removed iff it is still tagged with this commit's id.  (Written so that a lookup in the
+    result evaluates `ov` once: the executable driver stacks hundreds of these.) -/
 def cleanOp (id : Nat) (ov : K → Option (Nat × Option V)) (op : Op K V) :
     K → Option (Nat × Option V) :=
   match op with
-  | .set k _ | .deref k =>
-      match ov k with
-      | some (i, _) => if i = id then upd ov k none else ov
-      | none => ov
+  | .set k _ | .deref k => fun x =>
+      if x = k then
+        match ov k with
+        | some (i, v) => if i = id then none else some (i, v)
+        | none => none
+      else ov x
   | .ref _ => ov
 
 /-- What the planner sees: log overlay over tables. -/
